@@ -314,6 +314,9 @@ class _Parser(object):
                     'CURRENT': self._doc_dict,
                 }, **self._user_vars), expression[2:], can_generate_array=True)
             return helpers.get_value_by_dot(self._doc_dict, expression[1:], can_generate_array=True)
+        if isinstance(expression, list):
+            # An array constant of the pipeline: each document gets its own copy.
+            return copy.deepcopy(expression)
         return expression
 
     def _handle_boolean_operator(self, operator, values):
@@ -427,7 +430,9 @@ class _Parser(object):
 
     def _handle_projection_operator(self, operator, value):
         if operator == '$literal':
-            return value
+            # A copy: the operand belongs to the caller's pipeline, and the stages that follow
+            # edit the documents they are given in place.
+            return copy.deepcopy(value)
         if operator == '$let':
             if not isinstance(value, dict):
                 raise InvalidDocument('$let only supports an object as its argument')
